@@ -1,5 +1,6 @@
 """C19 - Easter, Pesach and Moslem-calendar conversions follow their calendar
 rules."""
+import math
 import random
 
 from vpm.oracles import calendars as cal
@@ -273,7 +274,10 @@ def case_civil_year(mon, y):
         # the day as get_date() hands it back: a float, with or without a
         # time of day - still that civil day
         if d % 3 == 0:
-            fd = d + (0.0, 0.25, 0.5, 0.75, 0.999)[(d // 3 + m) % 5]
+            # ... up to the last float before the next day
+            fd = (d + 0.0, d + 0.25, d + 0.5, d + 0.75, d + 0.999,
+                  d + 0.9999999999, d + 0.999999999999,
+                  math.nextafter(d + 1.0, 0.0))[(d // 3 + m + y) % 8]
             mon.evals += 1
             try:
                 gotf = Epoch.gregorian2moslem(y, m, fd)
